@@ -341,3 +341,172 @@ def bfs_budget(cfg, depth, seed=0):
     res["outcomes"] = outcomes
     res["nontrivial"] = {hash(k) for k in seen}
     return res
+
+
+# ---------------------------------------------------------------------------------------------
+# identity-aware breaker histories (C07a): start | settle(i, kind) | tick(d)
+# ---------------------------------------------------------------------------------------------
+
+SETTLE_KINDS = [("success", None), ("failure", "T"), ("cancel", None)]
+
+
+class IdWorld:
+    """Real CircuitBreaker driven by calls with identities, with the reference alongside."""
+
+    def __init__(self, cfg):
+        self.cfg = cfg
+        self.clock = Clock()
+        self.b = make_breaker(cfg, self.clock)
+        self.specs = {c: make_spec(cfg, c) for c in CONVENTIONS}
+        self.out = []          # outstanding calls: dict(conv -> cid)
+        self.diverged = None   # (key, message) of the first divergence
+
+    def _drop(self, pred, what, stale_ctx=None):
+        for c in [c for c, s in self.specs.items() if pred(c, s)]:
+            del self.specs[c]
+        if not self.specs and self.diverged is None:
+            self.diverged = what
+
+    def apply(self, ev):
+        k = ev[0]
+        now_specs = self.specs
+        if k == "tick":
+            self.clock.now += ev[1] * TAU
+            return
+        now = self.clock.now
+        if k == "start":
+            d = self.b.allow()
+            got = (d.allowed, d.state.value, d.event)
+            cids = {}
+            for c, s in list(now_specs.items()):
+                adm, st, event, cid = s.start(now)
+                cids[c] = cid
+                if (adm, st, event) != got:
+                    del now_specs[c]
+            if not now_specs:
+                self.diverged = ("c07.admission", f"start answered {got}")
+                return
+            if d.allowed:
+                self.out.append(cids)
+            return
+        if k == "settle":
+            i, kind, klass = ev[1], ev[2], ev[3]
+            cids = self.out.pop(i)
+            stale_half = any(s.mode == HALF and s.is_stale(cids.get(c)) and s.probe != cids.get(c)
+                             for c, s in now_specs.items())
+            if kind == "success":
+                got = self.b.record_success()
+            elif kind == "cancel":
+                got = self.b.record_cancel()
+            else:
+                got = self.b.record_failure(KL[klass])
+            for c, s in list(now_specs.items()):
+                want = s.settle(cids.get(c), kind, klass, now)
+                if want != got:
+                    del now_specs[c]
+            if not now_specs:
+                self.diverged = ("c07.stale-settle" if stale_half else "c07.settlement",
+                                 f"settle({kind}) answered {got!r}")
+            self._last_stale_half = stale_half
+            return
+        raise ValueError(ev)
+
+    def lookahead(self, last_ev):
+        """Observable comparison after an event: state property and what a start would get
+        now and after the recovery timeout (on this throw-away replica)."""
+        if self.diverged:
+            return
+        stale_half = last_ev[0] == "settle" and getattr(self, "_last_stale_half", False)
+        key = "c07.stale-settle" if stale_half else "c07.diverges"
+        st = self.b.state.value
+        live = {c: s for c, s in self.specs.items() if s.mode == st}
+        if not live:
+            self.diverged = (key, f"state is {st}, reference says "
+                                  f"{sorted({s.mode for s in self.specs.values()})}")
+            return
+        d = self.b.allow()
+        got = (d.allowed, d.state.value, d.event)
+        ok = False
+        for c, s in live.items():
+            s2 = s.clone()
+            adm, st2, event, _ = s2.start(self.clock.now)
+            if (adm, st2, event) == got:
+                ok = True
+        if not ok:
+            self.diverged = (key, f"a call starting now is answered {got}; reference "
+                                  f"(probe outstanding: "
+                                  f"{sorted({s.probe is not None for s in live.values()})}, mode "
+                                  f"{sorted({s.mode for s in live.values()})}) disagrees")
+
+    def key(self):
+        now = self.clock.now
+        outs = []
+        for cids in self.out:
+            outs.append(tuple(sorted((c, s.probe == cids.get(c), s.is_stale(cids.get(c)))
+                                     for c, s in self.specs.items())))
+        return (breaker_canon(self.b, now),
+                frozenset((c, s.key(now)) for c, s in self.specs.items()),
+                tuple(sorted(outs)))
+
+
+def replay_identity(cfg, hist):
+    w = IdWorld(cfg)
+    for i, ev in enumerate(hist):
+        w.apply(ev)
+        if w.diverged:
+            return w, i
+    return w, None
+
+
+def bfs_identity(cfg, depth, max_out, seed=0):
+    res = new_result()
+    ticks = sorted({1, cfg["recovery"] - 1 or 1, cfg["recovery"], cfg["window"]})
+    seen = {}
+    frontier = collections.deque([()])
+    trans = 0
+    outcomes = set()
+    while frontier:
+        hist = frontier.popleft()
+        if len(hist) >= depth:
+            continue
+        w0, _ = replay_identity(cfg, hist)
+        n_out = len(w0.out)
+        events = [("tick", d) for d in ticks]
+        if n_out < max_out:
+            events.append(("start",))
+        for i in range(n_out):
+            for kind, klass in SETTLE_KINDS:
+                events.append(("settle", i, kind, klass))
+        for ev in events:
+            h2 = hist + (ev,)
+            w, at = replay_identity(cfg, h2)
+            trans += 1
+            if not w.diverged:
+                key = w.key()
+                w.lookahead(ev)
+            if w.diverged:
+                k, msg = w.diverged
+                outcomes.add(("diverged", k))
+                res["nviol"] += 1
+                res["viol_keys"][k] = res["viol_keys"].get(k, 0) + 1
+                if not any(v["key"] == k for v in res["violations"]):
+                    res["violations"].append({
+                        "key": k, "msg": f"after {list(h2)}: {msg}", "family": "identity",
+                        "cfg": cfg, "entry": "CircuitBreaker", "choices": [list(e) for e in h2],
+                        "labels": [list(e) for e in h2], "trace": [],
+                        "extra": {"depth": depth, "max_out": max_out}})
+                continue  # pruned at the first divergent step
+            outcomes.add((ev[0], w.b.state.value, len(w.out)))
+            if key not in seen:
+                seen[key] = h2
+                frontier.append(h2)
+                if len(res["samples"]) < 2 and len(h2) >= min(depth, 5) and (len(seen) + seed) % 89 == 0:
+                    res["samples"].append({"family": "identity", "cfg": cfg,
+                                           "history": [list(e) for e in h2],
+                                           "state": w.b.state.value})
+    res["execs"] = trans
+    res["states"] = len(seen)
+    res["transitions"] = trans
+    res["outcomes"] = outcomes
+    res["nontrivial"] = {hash(k) for k in seen}
+    return res
